@@ -250,7 +250,7 @@ func runC20(c *mon.Ctx) {
 	c.Stratum("fonts", c.N(4000, 300000), func(k *mon.Case) {
 		r := k.Rng
 		kind := []string{"glyf", "cff", "cid"}[k.Index%3]
-		o := fontgen.Opts{Kind: kind, MinGlyphs: 1, MaxGlyphs: 24, Plain: true, NoComposite: true, CMap: []string{"none", "4", "12", "4"}[r.IntN(4)]}
+		o := fontgen.Opts{Kind: kind, MinGlyphs: 1, MaxGlyphs: 24, Plain: true, NoComposite: true, CMap: []string{"none", "4", "12", "4", "mac"}[r.IntN(5)]}
 		build := func(rr *rand.Rand) (*sfnt.Font, *fontgen.Info, []string, string, []c20rule) {
 			f, info := fontgen.Font(rr, o)
 			n := f.NumGlyphs()
